@@ -1031,3 +1031,9 @@ MUTANTS += [
  dict(name='c02-m0-trampoline-swaps-arguments', prop='C02', expect='trampoline',
       edits=[('src/core/arch/armv6_m/fp.cpp', 'res_val->reduce(*a_val, *p_val);', 'res_val->reduce(*p_val, *a_val);')]),
 ]
+MUTANTS += [
+ dict(name='c17-m0-add-one-pair-too-many', prop='C17', expect='asm|footprint',
+      edits=[('src/core/arch/armv6_m/bigint.s', '    addcarry64 r0, r1, r2\n\n    @ Recover carry bit and store it in r0\n    eor r0, r0, r0', '    addcarry64 r0, r1, r2\n    addcarry64 r0, r1, r2\n\n    @ Recover carry bit and store it in r0\n    eor r0, r0, r0')]),
+ dict(name='c17-m0-multiply-frame-too-small', prop='C17', expect='asm|',
+      edits=[('src/core/arch/armv6_m/multiply.s', '    @ Allocate space for temporary BigInt<768> "tmp" storing the product\n    sub sp, sp, #96\n\n    @ Compute the product of a * b and store it in tmp\n\n    multiply768\n\n    @ Copy result', '    @ Allocate space for temporary BigInt<768> "tmp" storing the product\n    sub sp, sp, #88\n\n    @ Compute the product of a * b and store it in tmp\n\n    multiply768\n\n    @ Copy result')]),
+]
